@@ -4,6 +4,7 @@ import (
 	"bytes"
 	"errors"
 	"fmt"
+	"sort"
 
 	"github.com/massnetorg/mass-core/blockchain"
 	"github.com/massnetorg/mass-core/debug"
@@ -684,6 +685,22 @@ func (s *TxStore) Rollback(tx mwdb.DBTransaction, height uint64) error {
 		}
 
 		heightsToRemove = append(heightsToRemove, rbBlock.Height)
+
+		// The block record lists transactions in the order they became
+		// relevant (a later wallet import appends), which need not be the
+		// order inside the block. Undo them in reverse block order, so that
+		// a transaction is rolled back before the one whose output it spends.
+		txStart := func(h *wire.Hash) int {
+			_, v := existsTxRecord(nsTxRecords, h, &rbBlock.BlockMeta)
+			_, loc, err := readTxRecordLoc(v)
+			if err != nil {
+				return -1
+			}
+			return loc.TxStart
+		}
+		sort.SliceStable(rbBlock.transactions, func(a, b int) bool {
+			return txStart(&rbBlock.transactions[a]) < txStart(&rbBlock.transactions[b])
+		})
 
 		for i := len(rbBlock.transactions) - 1; i >= 0; i-- {
 			txHash := &rbBlock.transactions[i]
